@@ -514,6 +514,14 @@ func (fv *FuncVer) applyContract(st *State, ins ssa.Instruction, blk *Block, ful
 		ats = append(ats, t)
 		if i < len(names) && names[i].name != "" && names[i].name != "_" {
 			env.vars[names[i].name] = SVal{T: t, Typ: names[i].typ}
+			if isPure && names[i].typ != nil {
+				// a pure function sees the pointee: its contract talks about the value
+				if pt, ok := types.Unalias(names[i].typ).Underlying().(*types.Pointer); ok {
+					if pv := fv.pureArgVal(st, a, t, names, i); len(pv) == 1 && pv[0] != t {
+						env.vars[names[i].name] = SVal{T: pv[0], Typ: pt.Elem()}
+					}
+				}
+			}
 		}
 	}
 	site := fv.callSiteAnchor(ins, short)
